@@ -141,6 +141,24 @@ def ray3d(t):
 
 
 @op
+def ray_status(t):
+    """the status-returning ray kernel: returns the stored vertices even when the budget ran out"""
+    nd = 3 if "y" in t else 2
+    if nd == 2:
+        from fteikpy._fteik._ray2d import _ray2d_status as k
+        ray, count, st = k(f64(t["z"]), f64(t["x"]), f64(t["zgrad"]), f64(t["xgrad"]), np.float64(t["zend"]),
+                           np.float64(t["xend"]), np.float64(t["zsrc"]), np.float64(t["xsrc"]), np.float64(t["stepsize"]),
+                           int(t["max_step"]), bool(t["honor_grid"]))
+    else:
+        from fteikpy._fteik._ray3d import _ray3d_status as k
+        ray, count, st = k(f64(t["z"]), f64(t["x"]), f64(t["y"]), f64(t["zgrad"]), f64(t["xgrad"]), f64(t["ygrad"]),
+                           np.float64(t["zend"]), np.float64(t["xend"]), np.float64(t["yend"]), np.float64(t["zsrc"]),
+                           np.float64(t["xsrc"]), np.float64(t["ysrc"]), np.float64(t["stepsize"]), int(t["max_step"]),
+                           bool(t["honor_grid"]))
+    return {"ray": np.array(ray[: min(int(count), int(t["max_step"]))]), "count": int(count), "code": int(st)}
+
+
+@op
 def shrink(t):
     from fteikpy._fteik._common import shrink as k
     return {"v": float(k(f64(t["pcur"]), f64(t["delta"]), f64(t["lower"]), f64(t["upper"])))}
